@@ -41,7 +41,7 @@ func (fr *Frame) execInstr(ins ssa.Instruction, st *State) error {
 	case *ssa.Alloc:
 		pt := t.Type().(*types.Pointer).Elem()
 		esc := fr.allocEscapes(t, map[ssa.Value]bool{})
-		a := vc.newAlloc(pt, esc)
+		a := vc.newAlloc(st, pt, esc)
 		p := Value{C: []Term{a.ref}}
 		if _, isS := isStruct(pt); !isS {
 			if _, isA := isArray(pt); !isA {
@@ -65,6 +65,7 @@ func (fr *Frame) execInstr(ins ssa.Instruction, st *State) error {
 		x := fr.val(t.X)
 		stt := t.X.Type().Underlying().(*types.Pointer).Elem()
 		fr.vals[t] = vc.fieldPtr(x, stt, t.Field)
+		fr.guardCheck(t, x, stt, st)
 		return nil
 	case *ssa.Field:
 		x := fr.val(t.X)
@@ -178,7 +179,7 @@ func (fr *Frame) execInstr(ins ssa.Instruction, st *State) error {
 		ln := fr.val(t.Len).C[0]
 		cp := fr.val(t.Cap).C[0]
 		fr.implicit(st, "make", sAnd("(<= 0 "+ln+")", "(<= "+ln+" "+cp+")"), t.Pos(), isCallNode, "make "+t.Name())
-		a := vc.newAlloc(types.NewArray(et, 0), true)
+		a := vc.newAlloc(st, types.NewArray(et, 0), true)
 		// zero contents
 		ek := "M." + typeKey(et)
 		if _, isS := isStruct(et); !isS {
@@ -191,12 +192,12 @@ func (fr *Frame) execInstr(ins ssa.Instruction, st *State) error {
 		fr.vals[t] = Value{C: []Term{a.ref, "0", ln, cp}}
 		return nil
 	case *ssa.MakeMap:
-		a := vc.newAlloc(t.Type(), true)
+		a := vc.newAlloc(st, t.Type(), true)
 		fr.vals[t] = Value{C: []Term{a.ref}}
 		fr.mapInit(st, t.Type(), a.ref)
 		return nil
 	case *ssa.MakeChan:
-		a := vc.newAlloc(t.Type(), true)
+		a := vc.newAlloc(st, t.Type(), true)
 		fr.vals[t] = Value{C: []Term{a.ref}}
 		sz := fr.val(t.Size).C[0]
 		capA := vc.get(st, "ghost.chancap", "(Array Int Int)")
@@ -209,12 +210,29 @@ func (fr *Frame) execInstr(ins ssa.Instruction, st *State) error {
 	case *ssa.Lookup:
 		return fr.execLookup(t, st)
 	case *ssa.Range:
-		fr.vals[t] = Value{C: []Term{vc.fresh("range", "Int")}}
+		a := vc.newAlloc(st, types.Typ[types.Int], false)
+		fr.vals[t] = Value{C: []Term{a.ref}}
+		it := vc.get(st, "ghost.rangeit", "(Array Int Int)")
+		vc.set(st, "ghost.rangeit", "(Array Int Int)", sStore(it, a.ref, "0"))
 		return nil
 	case *ssa.Next:
 		v := vc.freshValue(fr.vname(t), t.Type(), st)
 		fr.vals[t] = v
-		vc.note("range over map/string: iteration order and contents abstracted")
+		if rg, ok := t.Iter.(*ssa.Range); ok {
+			if _, isMap := rg.X.Type().Underlying().(*types.Map); isMap {
+				// a map range visits each of the len(m) entries once (no insertions during the loop assumed)
+				id := fr.val(rg).C[0]
+				it := vc.get(st, "ghost.rangeit", "(Array Int Int)")
+				cn := vc.get(st, mapFam(rg.X.Type())+".count", "(Array Int Int)")
+				m := fr.val(rg.X).C[0]
+				n := sIte(sEq(m, "0"), "0", sSel(cn, m))
+				vc.assume(st, sEq(v.C[0], "(< "+sSel(it, id)+" "+n+")"))
+				vc.set(st, "ghost.rangeit", "(Array Int Int)", sStore(it, id, sIte(v.C[0], iAdd(sSel(it, id), "1"), sSel(it, id))))
+				vc.assumed["range over a map visits len(m) entries (keys/values abstracted, no insertion during the loop)"] = true
+				return nil
+			}
+		}
+		vc.note("range over string: iteration abstracted")
 		return nil
 	case *ssa.Select:
 		return fr.execSelect(t, st)
@@ -570,7 +588,7 @@ func (fr *Frame) execConvert(t *ssa.Convert, st *State) error {
 		fr.vals[t] = x
 	case isStringT(to) && isSliceOfBytes(from):
 		// string(bytes): fresh immutable copy
-		a := vc.newAlloc(types.NewArray(types.Typ[types.Uint8], 0), true)
+		a := vc.newAlloc(st, types.NewArray(types.Typ[types.Uint8], 0), true)
 		sm := vc.get(st, "S.byte", "(Array Int (Array Int Int))")
 		mm := vc.get(st, "M.uint8", "(Array Int (Array Int Int))")
 		nid := vc.fresh("strcopy", "Int")
@@ -579,7 +597,7 @@ func (fr *Frame) execConvert(t *ssa.Convert, st *State) error {
 		vc.assume(st, sEq(sSel(sm, nid), sSel(mm, x.C[0])))
 		fr.vals[t] = Value{C: []Term{nid, x.C[1], x.C[2]}}
 	case isSliceOfBytes(to) && isStringT(from):
-		a := vc.newAlloc(types.NewArray(types.Typ[types.Uint8], 0), true)
+		a := vc.newAlloc(st, types.NewArray(types.Typ[types.Uint8], 0), true)
 		sm := vc.get(st, "S.byte", "(Array Int (Array Int Int))")
 		srt := "(Array Int (Array Int Int))"
 		mm := vc.get(st, "M.uint8", srt)
@@ -815,4 +833,84 @@ func (fr *Frame) execSelect(t *ssa.Select, st *State) error {
 	}
 	fr.vals[t] = out
 	return nil
+}
+
+// guardCheck: a field declared `guarded Struct.f by mu` may only be accessed while the
+// mutex field mu of the same object is held (exclusively, when the access can write).
+func (fr *Frame) guardCheck(t *ssa.FieldAddr, x Value, stt types.Type, st *State) {
+	vc := fr.vc
+	n := namedOf(stt)
+	s, isS := isStruct(stt)
+	if n == nil || !isS || n.Obj().Pkg() == nil {
+		return
+	}
+	fname := s.Field(t.Field).Name()
+	lockName, ok := vc.eng.cs.Guarded[n.Obj().Pkg().Path()+"::"+n.Obj().Name()+"."+fname]
+	if !ok {
+		return
+	}
+	// constructors work on objects nobody else can see yet
+	if vc.contract != nil && vc.contract.Flags["constructor"] != "" {
+		return
+	}
+	li := -1
+	for i := 0; i < s.NumFields(); i++ {
+		if s.Field(i).Name() == lockName {
+			li = i
+		}
+	}
+	if li < 0 {
+		vc.errs = append(vc.errs, "guarded: no lock field "+lockName+" in "+n.Obj().Name())
+		return
+	}
+	lp := vc.fieldPtr(x, stt, li)
+	held := vc.get(st, "ghost.held", "(Array Int Int)")
+	h := sSel(held, lp.C[0])
+	writes := fieldAddrWrites(t, map[ssa.Value]bool{})
+	goal := sNot(sEq(h, "0"))
+	kind := "guarded_read"
+	if writes {
+		goal = sEq(h, "1")
+		kind = "guarded_write"
+	}
+	fr.implicit(st, kind, goal, t.Pos(), isAnyExpr, n.Obj().Name()+"."+fname)
+}
+
+// does this address (or a slice/pointer loaded through it) get stored to?
+func fieldAddrWrites(v ssa.Value, seen map[ssa.Value]bool) bool {
+	if seen[v] {
+		return false
+	}
+	seen[v] = true
+	refs := v.Referrers()
+	if refs == nil {
+		return true
+	}
+	for _, r := range *refs {
+		switch in := r.(type) {
+		case *ssa.Store:
+			if in.Addr == v {
+				return true
+			}
+		case *ssa.UnOp:
+			// loaded slice: element stores count as writes of the guarded data
+			if in.Op == token.MUL {
+				if _, ok := in.Type().Underlying().(*types.Slice); ok {
+					if fieldAddrWrites(in, seen) {
+						return true
+					}
+				}
+			}
+		case *ssa.IndexAddr:
+			if fieldAddrWrites(in, seen) {
+				return true
+			}
+		case *ssa.Call:
+			if in.Common().IsInvoke() {
+				continue
+			}
+			// passed to append etc: result is written back through a Store which we see
+		}
+	}
+	return false
 }
